@@ -17,7 +17,12 @@ code -> spec: seeded random content trees (hardlink groups, symlinks to files/di
               decorated with the tolerated CannotOverwrite retry of merge_contents (symlink entries over an
               existing real directory whose target is a directory) placed in the middle of the iteration
               order, with a hardlink group straddling it and every other feature on either side; the quick
-              sample of the exported pairs is stratified over (cset kinds x what g meets).  The recorded syscalls are
+              sample of the exported pairs is stratified over (cset kinds x what g meets).  About 30 % have a
+              filesystem boundary inside the root (a pre-existing directory is a mount point: os.link across
+              it fails with EXDEV, emulated in the recorder; Expected links only names on one filesystem) with a
+              hardlink group spread over both sides.  Directories may be set-gid with a foreign group and most
+              entries are recorded as 0:0, the merging process' own ids (created objects inherit the group of a
+              set-gid parent, so ownership must be set explicitly).  The recorded syscalls are
               replayed through FsModel by Merge_Trace; judged there: model == real snapshot
               (FinalState/FinalLinks), real snapshot vs Merge!Expected(old, cset, offset) one clause per
               attribute (Type Data Target Mtime Mode Owner Hardlink DirPermsKept Frame, Outcome_*).
@@ -29,6 +34,7 @@ owner of created missing parents and of the offset directory, owner of pre-exist
 of symlinks (not settable on Linux), mtime of directories populated afterwards, a pre-existing
 `<entry>#new` sibling (temporary name reserved by the merge, C19 statement).
 """
+import errno
 import os
 
 from pylib import fsjudge, fsrec, tlc
@@ -36,8 +42,10 @@ from pylib.common import mktmp, rng, use_repo
 
 NAMES = ["a", "b c", "d", "e", "lib", "é", "-n", "x.y", "#z"]
 MODES_F = [0o644, 0o755, 0o600, 0o4755, 0o640, 0o444]
-MODES_D = [0o755, 0o700, 0o775, 0o1777, 0o750]
-IDS = [0, 1, 2, 250, 1000]
+# set-gid directories: what is created below them inherits their group (and sub-directories the bit)
+MODES_D = [0o755, 0o700, 0o775, 0o1777, 0o750, 0o2775, 0o2755]
+# 0 is the merging process' own uid/gid and by far the most common recorded owner
+IDS = [0, 0, 0, 1, 2, 250, 1000]
 BIG = 70000
 # paths with non-ASCII names are printed in verdicts; deep folds need a roomier stack
 JAVA_ENV = {"JAVA_TOOL_OPTIONS": "-Xss64m -Dstdout.encoding=UTF-8 -Dsun.stdout.encoding=UTF-8 -Dfile.encoding=UTF-8"}
@@ -177,74 +185,97 @@ def gen_old(r_, cset, extra=3, benign=False):
     return old
 
 
-def add_retries(r_, cset, old):
-    """Decorate a scenario with the tolerated CannotOverwrite retry of merge_contents: symlink entries whose
-    location is an existing real directory and whose target is a directory, placed in the middle of the
-    iteration order, with a hardlink group (and whatever else the scenario holds) on both sides of them."""
-    otype = {o["path"]: o["type"] for o in old}
-    ctype = {e["path"]: e["type"] for e in cset}
+class Deco:
+    """Helpers to decorate a generated (cset, old) pair consistently."""
 
-    def clean_dir(p):  # p and its ancestors end up as real directories
+    def __init__(self, r_, cset, old):
+        self.r_, self.cset, self.old = r_, cset, old
+        self.otype = {o["path"]: o["type"] for o in old}
+        self.ctype = {e["path"]: e["type"] for e in cset}
+
+    def clean_dir(self, p):  # p and its ancestors end up as real directories
         while p:
-            if otype.get(p, "dir") != "dir" or ctype.get(p, "dir") != "dir":
+            if self.otype.get(p, "dir") != "dir" or self.ctype.get(p, "dir") != "dir":
                 return False
             p = os.path.dirname(p)
         return True
 
-    def old_dir(p):
-        if not p or p in otype:
+    def old_dir(self, p):
+        if not p or p in self.otype:
             return
-        old_dir(os.path.dirname(p))
+        self.old_dir(os.path.dirname(p))
         o = dict(path=p, type="dir", content="", target="", link_to="")
-        o.update(_attrs(r_, MODES_D))
-        old.append(o)
-        otype[p] = "dir"
+        o.update(_attrs(self.r_, MODES_D))
+        self.old.append(o)
+        self.otype[p] = "dir"
 
-    def new_file(parent, name, like=None):
-        e = dict(path=f"{parent}/{name}" if parent else name, type="file", content=_content(r_, name), target="", grp=0, src="local")
-        e.update(_attrs(r_, MODES_F))
+    def old_file(self, p, content):
+        if p not in self.otype:
+            self.old.append(dict(path=p, type="file", content=content, target="", link_to="", **_attrs(self.r_, MODES_F)))
+            self.otype[p] = "file"
+
+    def new_file(self, parent, name, like=None):
+        e = dict(path=f"{parent}/{name}" if parent else name, type="file", content=_content(self.r_, name), target="", grp=0, src="local")
+        e.update(_attrs(self.r_, MODES_F))
         if like:
             for f in ("content", "mode", "uid", "gid", "mtime", "grp"):
                 e[f] = like[f]
-        ctype[e["path"]] = "file"
+        self.ctype[e["path"]] = "file"
         return e
 
-    homes = [""] + [p for p, t in ctype.items() if t == "dir" and clean_dir(p)]
+    def homes(self):
+        return [""] + [p for p, t in self.ctype.items() if t == "dir" and self.clean_dir(p)]
+
+    def group(self, want, where=None):
+        """A hardlink group with at least `want` members (members added under the directories `where`)."""
+        r_, cset = self.r_, self.cset
+        files = [e for e in cset if e["type"] == "file" and self.otype.get(e["path"], "file") != "dir"
+                 and self.clean_dir(os.path.dirname(e["path"]))]
+        grouped = [e for e in files if e["grp"]]
+        if grouped:
+            a = r_.choice(grouped)
+        else:
+            a = r_.choice(files) if files else self.new_file(r_.choice(self.homes()), "hl-a")
+            if a not in cset:
+                cset.append(a)
+            a["grp"], a["src"] = 7, "local"
+        members = [e for e in cset if e["type"] == "file" and e["grp"] == a["grp"]]
+        while len(members) < want:
+            b = self.new_file(r_.choice(where or self.homes()), f"hl-{len(cset)}", like=a)
+            cset.append(b)
+            members.append(b)
+        return members
+
+
+def add_retries(r_, cset, old):
+    """Decorate a scenario with the tolerated CannotOverwrite retry of merge_contents: symlink entries whose
+    location is an existing real directory and whose target is a directory, placed in the middle of the
+    iteration order, with a hardlink group (and whatever else the scenario holds) on both sides of them."""
+    d = Deco(r_, cset, old)
+    homes = d.homes()
     syms = []
     for j in range(r_.randint(1, 2)):
         tgt = r_.choice([p for p in homes if p] + [f"rd{j}"] * 2)
         if tgt.startswith("rd"):
-            old_dir(tgt)
+            d.old_dir(tgt)
             if r_.random() < 0.5:
-                old.append(dict(path=tgt + "/inside", type="file", content="behind the link", target="", link_to="", **_attrs(r_, MODES_F)))
-                otype[tgt + "/inside"] = "file"
+                d.old_file(tgt + "/inside", "behind the link")
         parent = r_.choice(homes)
         p = f"{parent}/lk{j}" if parent else f"lk{j}"
-        old_dir(p)
+        d.old_dir(p)
         if r_.random() < 0.6:
-            old.append(dict(path=p + "/keep", type="file", content="other package", target="", link_to="", **_attrs(r_, MODES_F)))
-            otype[p + "/keep"] = "file"
+            d.old_file(p + "/keep", "other package")
         e = dict(path=p, type="sym", content="", grp=0, src="local",
                  target=r_.choice([os.path.relpath(tgt, parent or "."), "@ROOT@/" + tgt]))
         e.update(_attrs(r_, [0o777]))
-        ctype[p] = "sym"
+        d.ctype[p] = "sym"
         syms.append(e)
-    # a hardlink group with members on both sides of the first retry
-    files = [e for e in cset if e["type"] == "file" and otype.get(e["path"], "file") != "dir" and clean_dir(os.path.dirname(e["path"]))]
-    grouped = [e for e in files if e["grp"]]
-    if grouped:
-        a = r_.choice(grouped)
-    else:
-        a = r_.choice(files) if files else new_file(r_.choice(homes), "hl-a")
-        if a not in cset:
-            cset.append(a)
-        a["grp"], a["src"] = 7, "local"
-    mates = [e for e in cset if e is not a and e["type"] == "file" and e["grp"] == a["grp"]]
-    if not mates or r_.random() < 0.5:
-        b = new_file(r_.choice(homes), f"hl-b{len(cset)}", like=a)
-        cset.append(b)
-        mates.append(b)
-    b = r_.choice(mates)
+    members = d.group(2)
+    a = r_.choice(members)
+    b = r_.choice([m for m in members if m is not a])
+    if r_.random() < 0.5:
+        extra = d.new_file(r_.choice(homes), f"hl-x{len(cset)}", like=a)
+        cset.append(extra)
     rest = [e for e in cset if e is not a and e is not b]
     r_.shuffle(rest)
     cut1, cut2 = sorted((r_.randint(0, len(rest)), r_.randint(0, len(rest))))
@@ -256,13 +287,40 @@ def add_retries(r_, cset, old):
     cset[:] = order
 
 
-def gen_scenario(r_, size, retry=None):
+def add_mounts(r_, cset, old):
+    """Decorate a scenario with a filesystem boundary inside the merge root: a pre-existing directory is a
+    mount point (hard links across it fail with EXDEV, emulated at os.link), and a hardlink group has
+    members on both sides of it - several on at least one side, in random iteration order."""
+    d = Deco(r_, cset, old)
+    inside = [p for p in d.homes() if p]
+    mp = r_.choice(inside) if inside and r_.random() < 0.6 else "mnt"
+    d.old_dir(mp)
+    if mp == "mnt" and r_.random() < 0.5:
+        e = dict(path="mnt", type="dir", content="", target="", grp=0, src="local")
+        e.update(_attrs(r_, MODES_D))
+        cset.append(e)
+        d.ctype["mnt"] = "dir"
+    below = [mp] + [p for p in d.homes() if p.startswith(mp + "/")]
+    above = [p for p in d.homes() if p != mp and not p.startswith(mp + "/")]
+    members = d.group(2)
+    a = members[0]
+    for where in (below, below, above, r_.choice([below, above])):
+        e = d.new_file(r_.choice(where), f"hl-m{len(cset)}", like=a)
+        cset.append(e)
+    r_.shuffle(cset)
+    return [mp]
+
+
+def gen_scenario(r_, size, retry=None, mount=None):
     cset = gen_cset(r_, r_.randint(1, size))
     retry = r_.random() < 0.35 if retry is None else retry
-    old = gen_old(r_, cset, benign=retry)
+    mount = r_.random() < 0.3 if mount is None else mount
+    old = gen_old(r_, cset, benign=retry or mount)
+    mounts = add_mounts(r_, cset, old) if mount else []
     if retry:
         add_retries(r_, cset, old)
-    return dict(cset=cset, old=old, mode=r_.choice(["offset", "offset", "none", "missing"] if not retry else ["offset", "none"]),
+    return dict(cset=cset, old=old, mounts=mounts,
+                mode=r_.choice(["offset", "offset", "none", "missing"] if not (retry or mount) else ["offset", "none"]),
                 via=r_.choice(["ops", "ops", "engine"]))
 
 
@@ -387,6 +445,16 @@ class World:
                              target=self.sub(e["target"]) if e["type"] == "sym" else "-", grp=e["grp"]))
         return rows
 
+    def abs_mounts(self, snap):
+        """Mount points as canonical paths relative to the recorder root (they pre-exist as directories)."""
+        out = []
+        for m in self.sc.get("mounts", []):
+            real = os.path.realpath(os.path.join(self.M, m))
+            rel = os.path.relpath(real, os.path.realpath(self.R))
+            if snap.get(rel, {}).get("type") == "dir":
+                out.append(rel)
+        return out
+
     def links(self, snap, entries_list):
         root = os.path.realpath(self.R)
         ts = {o["target"] for o in snap.values() if o["type"] == "sym"}
@@ -402,6 +470,27 @@ class World:
             else:
                 out.append(dict(t=t, abs=False, ext=False, comps=[c for c in t.split("/") if c]))
         return out
+
+
+class DevRecorder(fsrec.Recorder):
+    """Recorder that emulates filesystem boundaries inside the root: os.link between names on different
+    sides of a mount point fails with EXDEV (no mutation, no event), as the kernel would."""
+
+    def __init__(self, root, mounts=(), **kw):
+        super().__init__(root, **kw)
+        self.mounts = sorted(mounts, key=len, reverse=True)
+        self.exdev = 0
+
+    def _dev(self, rp):
+        return next((m for m in self.mounts if rp == m or rp.startswith(m + "/")), "")
+
+    def _w_link(self, src, dst, *, src_dir_fd=None, dst_dir_fd=None, follow_symlinks=True):
+        if self.active and self.mounts:
+            a, b = self._resolve(src, dir_fd=src_dir_fd), self._resolve(dst, dir_fd=dst_dir_fd)
+            if self._inside(a) and self._inside(b) and self._dev(a) != self._dev(b):
+                self.exdev += 1
+                raise OSError(errno.EXDEV, os.strerror(errno.EXDEV), os.fspath(src), None, os.fspath(dst))
+        return super()._w_link(src, dst, src_dir_fd=src_dir_fd, dst_dir_fd=dst_dir_fd, follow_symlinks=follow_symlinks)
 
 
 def observer():
@@ -447,7 +536,12 @@ def run_recorded(tid, w, op, extra_init):
     """Fresh old root, run op under the recorder; returns (events, info)."""
     w.setup()
     before = fsrec.snapshot(w.R)
-    rec, _res, exc = fsrec.count_mutations(w.R, op)
+    rec, exc = DevRecorder(w.R, mounts=w.abs_mounts(before)), None
+    with rec:
+        try:
+            op()
+        except Exception as e:  # noqa: the outcome is judged by the trace spec
+            exc = e
     after = fsrec.snapshot(w.R)
     events = [init_event(tid, w, before, **extra_init(before))]
     sysev = fsjudge.sys_events(tid, rec.events)
@@ -467,7 +561,8 @@ def snap_rows(tid, i, snap, **extra):
 
 def merge_init(w, prefixes=False):
     def extra(before):
-        return dict(cset=w.abs_entries(), offset=w.abs_offset(), links=w.links(before, [w.sc["cset"]]), prefixes=prefixes)
+        return dict(cset=w.abs_entries(), offset=w.abs_offset(), links=w.links(before, [w.sc["cset"]]), prefixes=prefixes,
+                    mounts=[m.split("/") for m in w.abs_mounts(before)])
     return extra
 
 
@@ -493,11 +588,11 @@ def obj_type(snap, rel):
 KINDS = dict(  # kind universes of Merge_Cases: what d, d/f, g are before the merge / in the cset
     full=dict(ODKinds=["absent", "dir", "file", "symdir", "dangling"], OFKinds=["absent", "file", "sym", "stale"],
               OGKinds=["absent", "file", "sym", "dir", "hl"], CDKinds=["none", "dir"], CFKinds=["none", "file", "sym", "fifo"],
-              CGKinds=["none", "file", "sym", "mate"], CHKinds=["none", "mate"]),
+              CGKinds=["none", "file", "sym", "mate"], CHKinds=["none", "mate"], MTKinds=["none", "d"]),
     small=dict(ODKinds=["dir", "file", "symdir", "dangling"], OFKinds=["absent", "file", "stale"], OGKinds=["absent", "sym", "hl", "dir"],
-               CDKinds=["none", "dir"], CFKinds=["none", "file", "sym"], CGKinds=["none", "sym", "mate"], CHKinds=["none", "mate"]),
+               CDKinds=["none", "dir"], CFKinds=["none", "file", "sym"], CGKinds=["none", "sym", "mate"], CHKinds=["none", "mate"], MTKinds=["none", "d"]),
     replace=dict(ODKinds=["dir"], OFKinds=["file", "stale"], OGKinds=["absent", "hl"], CDKinds=["dir"], CFKinds=["file"],
-                 CGKinds=["none", "mate"], CHKinds=["none"]),
+                 CGKinds=["none", "mate"], CHKinds=["none"], MTKinds=["none"]),
 )
 
 
@@ -539,7 +634,7 @@ def stratified(r_, exported, n):
     pick, seen = [], set()
     pool = list(exported)
     r_.shuffle(pool)
-    for keyf in (lambda c: (c["cd"], c["cf"], c["cg"], c["ch"], c["og"]), lambda c: (c["od"], c["of"], c["cg"], c["ch"])):
+    for keyf in (lambda c: (c["cd"], c["cf"], c["cg"], c["ch"], c["og"]), lambda c: (c["od"], c["of"], c["cg"], c["ch"], c["mt"])):
         for sc in pool:
             k = keyf(sc["sel"])
             if k not in seen:
@@ -557,7 +652,7 @@ def export_scenarios(ck):
     out = []
     for n, c in enumerate(cases):
         out.append(dict(cset=[dict(e) for e in c["cset"]], old=[dict(o) for o in c["old"]],
-                        mode=("offset", "none")[n % 2], via=("ops", "engine")[(n // 2) % 2], sel=c["sel"]))
+                        mode=("offset", "none")[n % 2], via=("ops", "engine")[(n // 2) % 2], sel=c["sel"], mounts=list(c["mounts"])))
     return out
 
 
@@ -622,6 +717,7 @@ def run(ck):
                                            expected=exp[v["tid"]][0], why=exp[v["tid"]][1]))
     ck.extra["expected_outcomes"] = stats
     ck.extra["syscalls_replayed"] = sum(i["n_sys"] for i in infos.values())
+    ck.extra["scenarios_with_exdev_links"] = sum(1 for i in infos.values() if i["rec"].exdev)
     if scenarios:
         sc = scenarios[-1]
         ck.sample(dict(cset=[(e["path"], e["type"]) for e in sc["cset"]], old=[(o["path"], o["type"]) for o in sc["old"]],
